@@ -20,6 +20,8 @@ THEOREMS = [
     "C13.frame_after_replacement",
     "C13.frame_untouched_when_not_replaced",
     "C13.frame_one_hole",
+    "C13.frame_one_hole_quiet",
+    "C13.eval_node_is_quiet",
     "C13.frame_top_level",
     "C13.frame_function_body_never_visited",
     "C13.slot_statement",
